@@ -1662,6 +1662,51 @@ func TestC33(t *testing.T) {
 			}
 		}
 	}
+	// always included: a TLS <= 1.2 ServerHello that "selects" each of the 16 GREASE values as
+	// its version, in the legacy field and in a supported_versions extension.  The client's own
+	// GREASE version is drawn per connection, so each case has a 1-in-16 chance of naming the
+	// very value this hello carries (a value that is on the wire but is no offer); over the
+	// 8 x 32 cases of the quick tier practically every run contains such a case.
+	{
+		done := 0
+		for _, sl := range slots {
+			if done >= mon.Pick(8, 60) {
+				break
+			}
+			if sl.sc.tls13 || len(sl.types) == 0 || sl.types[0] != 2 {
+				continue
+			}
+			hasGrease := false
+			for _, v := range sl.ch.Versions {
+				hasGrease = hasGrease || wire.IsGREASE(v)
+			}
+			if !hasGrease {
+				continue
+			}
+			done++
+			for k := 0; k < 32; k++ {
+				g := uint16(0x0a0a + 0x1010*(k%16))
+				viaExt := k >= 16
+				sel = append(sel, planned{sl, c33Case{tg: sl.tg, sc: sl.sc, msgIndex: 0, mutName: fmt.Sprintf("sh_selects_grease_version_%04x(ext=%v)", g, viaExt), seed: k,
+					mutate: func(rg *rand.Rand, m []byte) []byte {
+						h, err := wire.ParseServerHello(m)
+						if err != nil {
+							return m
+						}
+						if h.Exts == nil {
+							h.Exts = []wire.Ext{}
+						}
+						if viaExt {
+							h.SetExt(wire.ExtSupportedVersions, be16(g))
+						} else {
+							h.Version = g
+						}
+						return h.Marshal()
+					}}, 2})
+			}
+		}
+		r.Count("server_hellos_selecting_grease_versions", int64(done*32))
+	}
 	for i := range sel {
 		sel[i].cs.id = fmt.Sprintf("%s|%s|msg%d(type %d)|%s|%d", sel[i].sl.tg.Name, sel[i].sl.sc.name, sel[i].cs.msgIndex, sel[i].mt, sel[i].cs.mutName, sel[i].cs.seed)
 	}
